@@ -651,6 +651,49 @@ def r15_10(ctx, rep):
     module_state_free(ctx, rep, "R15.10", "src/pymoca/backends/casadi/alias_relation.py", "the alias relation")
 
 
+@SPEC.rule(
+    "R15.11",
+    "the tests of the elimination passes are made: every CasADi predicate whose answer _simplify_once uses is called (a method object is "
+    "always true), and every ca.Function built inside a loop gets symbol vectors as inputs on every iteration — no input name reaches the "
+    "constructor bound to a number by a later statement of the previous iteration (`constants = 0` after the hoisted `constants = veccat(...)`)",
+)
+def r15_11(ctx, rep):
+    from ..cfg import reaching_defs, def_value
+    from ._literal import no_uncalled_predicates
+    R = "R15.11"
+    no_uncalled_predicates(ctx, rep, R, MODEL, "the CasADi model")
+    fn = simplify_fn(ctx, R)
+    site = MODEL + ":Model._simplify_once"
+    cfg = CFG(fn, R)
+    n = 0
+    cache = {}
+    for x in cfg.stmts():
+        if isinstance(x.ast, (ast.FunctionDef, ast.ClassDef)):
+            continue
+        for c in calls(x.ast):
+            if not ((call_name(c) or "").endswith("ca.Function") and len(c.args) >= 2 and isinstance(c.args[1], ast.List)):
+                continue
+            # only constructors inside a loop can see a rebinding from an earlier iteration
+            p_, in_loop = getattr(c, "_parent", None), False
+            while p_ is not None and p_ is not fn:
+                in_loop = in_loop or isinstance(p_, (ast.For, ast.While))
+                p_ = getattr(p_, "_parent", None)
+            if not in_loop:
+                continue
+            for a in c.args[1].elts:
+                if not isinstance(a, ast.Name):
+                    continue
+                n += 1
+                rd = cache.setdefault(a.id, reaching_defs(cfg, a.id))
+                numeric = [cfg.nodes[d] for d in rd.get(x.id, ()) if d != cfg.entry and isinstance(def_value(cfg.nodes[d], a.id), ast.Constant)
+                           and isinstance(def_value(cfg.nodes[d], a.id).value, (int, float))]
+                rep.ob(R, site, "input `%s` of %s is a symbol vector on every iteration" % (a.id, norm(c.args[0])), not numeric,
+                       "`%s` (line %s) reaches this constructor through the loop's back edge: on the second iteration the function is built with a number "
+                       "as input and CasADi raises (or, worse, the wrong quantity is treated as a constant)" % (norm(numeric[0].ast) if numeric else "", numeric[0].lineno if numeric else ""))
+    if n < 4:
+        raise MechanismMissing(R, "fewer than 4 named inputs of in-loop ca.Function constructions found in _simplify_once")
+
+
 # -- seeded variants ---------------------------------------------------------
 from ._mut import delete_stmt_where, replace_in_func, replace_stmt_where  # noqa: E402
 
@@ -857,6 +900,33 @@ def _m_fixpoint(mod):
                     st = loop.body.pop(idx[0])
                     loop.body.insert(cmp_[0], st)
                     return True
+        return False
+
+    return mod if replace_in_func(mod, "Model._simplify_once", edit) else None
+
+
+@SPEC.mutant("affine inputs hoisted out of the loop that rebinds them", MODEL, "R15.11", "symbol vector on every iteration")
+def _m_hoist(mod):
+    def edit(fn):
+        for n in ast.walk(fn):
+            for f in ("body", "orelse"):
+                lst = getattr(n, f, None)
+                if isinstance(lst, list):
+                    for i, st in enumerate(lst):
+                        if isinstance(st, ast.For) and "'initial_equations'" in norm(st.iter):
+                            moved = []
+                            for inner in ast.walk(st):
+                                if isinstance(inner, ast.If):
+                                    keep = []
+                                    for b in inner.body:
+                                        if isinstance(b, ast.Assign) and isinstance(b.targets[0], ast.Name) and b.targets[0].id in ("constants", "parameters") and "veccat" in norm(b.value):
+                                            moved.append(b)
+                                        else:
+                                            keep.append(b)
+                                    if moved and len(keep) != len(inner.body):
+                                        inner.body = keep
+                                        lst[i:i] = moved
+                                        return True
         return False
 
     return mod if replace_in_func(mod, "Model._simplify_once", edit) else None
